@@ -41,6 +41,15 @@ def membersTerm : PMembers → Term
   | .nil t => t
   | .cons _ _ _ rest => membersTerm rest
 
+/-- the post-check faults of a oneof body: more than one key, or a `"!type"` that contradicts the
+key present / names no member -/
+def FaultOneofPost (ops : List PropDef) (ms : PMembers) : Prop :=
+  match oneofKeys ms, finalType ms none with
+  | _ :: _ :: _, _ => True
+  | [k], some name => k ≠ name
+  | [], some name => findProp ops name = none
+  | _, _ => False
+
 mutual
 /-- the value `t` of a field with schema `fld` contains a fault -/
 def FaultV (c : Cfg) (fld : Field) : PTree → Prop
@@ -53,7 +62,7 @@ def FaultV (c : Cfg) (fld : Field) : PTree → Prop
       | _ => True
     | .oneof ref =>
       match c.env.find ref with
-      | some (.oneof ops) => FaultO c ops ms
+      | some (.oneof ops) => FaultO c ops ms ∨ FaultOneofPost ops ms
       | _ => True
     | .map item => FaultMap c item ms
     | .any _ => False
@@ -99,15 +108,6 @@ def FaultMap (c : Cfg) (item : Field) : PMembers → Prop
   | .nil term => term ≠ .closed
   | .cons k _ v rest => v = .null ∨ FaultV c item v ∨ hasKey k rest ∨ FaultMap c item rest
 end
-
-/-- the post-check faults of a oneof body: more than one key, or a `"!type"` that contradicts the
-key present / names no member -/
-def FaultOneofPost (ops : List PropDef) (ms : PMembers) : Prop :=
-  match oneofKeys ms, finalType ms none with
-  | _ :: _ :: _, _ => True
-  | [k], some name => k ≠ name
-  | [], some name => findProp ops name = none
-  | _, _ => False
 
 /-- the document `t` for root `root` contains a fault -/
 def FaultRoot (c : Cfg) (root : String) (t : PTree) : Prop :=
